@@ -10,9 +10,59 @@ def repo_commits(prefix):
 CHECKS = {
  "C01": ("E1", "exploration",
    "runtime monitoring: token-tagged black-box observation of real server+agent under 1-128-way concurrency + Go race detector + crash monitor",
-   "Real race-built server and agent binaries run under barrier-released bursts of token-tagged requests; offline oracles compare every token site the client saw with its own token, count backend arrivals per token, check request-ID uniqueness from the server log and treat any race report with a frame in the anchored files as a violation. Decides the property on the executions produced (hundreds to tens of thousands of requests per run), not for all schedules.",
+   "Real race-built server and agent binaries run under barrier-released bursts of token-tagged requests; offline oracles compare every token site the client saw with its own token, count backend arrivals per token, check request-ID uniqueness from the server log and treat any race report with a frame in the anchored files as a violation. Decides the property on the executions produced (thousands to tens of thousands of requests per run), not for all schedules.",
    "Trusted: the harness' raw HTTP codec, scripted backend and token discipline; loopback TCP; the Go race detector's happens-before model. Schedules explored are those the kernel/Go scheduler produce under bursts and token-dependent backend latency.",
    "DESIGN.md §3 C01"),
+ "C02": ("E1", "exploration",
+   "runtime monitoring: wire-level differential observer (raw-TCP client vs raw-TCP recording backend) over grammar-generated requests + race detector + crash monitor",
+   "Grammar-generated well-formed requests are sent byte-for-byte by a raw client through the real server and agent to a raw recording backend; the request fidelity oracle compares method, target, Host, every end-to-end field's ordered value list, absence of planted hop-by-hop tokens, and body length/SHA. Holds on the generated inputs only.",
+   "Trusted: harness codec and generator; the classes excluded as not well-formed / protocol-special are listed in DESIGN.md §3 C02 and §4.",
+   "DESIGN.md §3 C02"),
+ "C03": ("E1", "exploration",
+   "runtime monitoring: wire-level differential observer over scripted backend responses (all statuses 200-599, framings, trailers, 1xx, delays) + race detector",
+   "A scripted raw backend emits responses covering every final status 200-599 with generated header sets, framings, body sizes at buffer boundaries, declared/undeclared trailers, interim 1xx responses and inter-part delays; a raw client parses what comes back through server+agent and the response fidelity oracle compares status, fields, hop-by-hop tokens, body and trailer section. Races in the anchored files count as violations.",
+   "Trusted: harness codec; relaying of interim responses and fields added under names the backend did not use are deliberately not judged; default agent configuration only.",
+   "DESIGN.md §3 C03"),
+ "C04": ("E1", "exploration",
+   "runtime monitoring: exactly-once checker over recorded events (backend arrival counts per unique ID; multiset of IDs over all pending-list replies) with scripted list histories and concurrent pollers",
+   "Part (a): the real agent is fed generated histories of pending-list replies (repeats, duplicates, permutations, overlaps, re-listing until/after completion, window-edge histories with 999 intervening IDs) by a scripted fake proxy; a counting backend decides at-most-once / exactly-once per ID. Part (b): the real stand-alone proxy serves N raw clients and M concurrent pollers; the union of all list replies must contain each client's ID exactly once.",
+   "Trusted: fault-free transport between agent, fake proxy and backend; nothing asserted beyond the 1000-ID window.",
+   "DESIGN.md §3 C04"),
+ "C05": ("E1", "exploration",
+   "runtime monitoring: lock-step progress monitor (backend emits chunk i+1 only after the proxy-side observer saw chunk i) with bounded-progress verdicts confirmed by solo re-run",
+   "The fake proxy de-chunks the agent's upload incrementally and parses the inner response on the fly; the backend advances only after the observer has seen the previous chunk, so any buffering that waits for more output or for the end of the response deadlocks the lock-step and is reported after the 5 s bound (re-confirmed alone at 10 s). Chunk latencies observed are reported.",
+   "Unbounded 'eventually' replaced by T=5 s (>=20x observed); a miss decides only after a solo re-run.",
+   "DESIGN.md §3 C05"),
+ "C06": ("E2", "fault_enumeration",
+   "runtime monitoring: enumerated fault scripts against the real upload path in a race-built in-process worker; byte-exact oracle on every acknowledged attempt + race detector + hang watchdog",
+   "utils.NewResponseForwarder is driven with a real http.Client against a byte-level TCP fault server; fault kind x offset x attempt pattern (<=3) x size class x producer timing are enumerated (quick: ~430 scripts, thorough: ~13 000). Every attempt the server acknowledged after reading the terminating chunk must parse to exactly the response the handler wrote; attempts are counted; a retry after >4096 received bytes is refuted; handler return is bounded by 10 s (confirmed alone at 20 s).",
+   "Trusted: the fault server's own de-chunker; HTTP/1.1 transport to the proxy only.",
+   "DESIGN.md §3 C06"),
+ "C07": ("E1", "fault_enumeration",
+   "runtime monitoring: enumerated fault catalogue injected into a live agent while 8 lanes of healthy probes run; process-liveness, crash-marker and probe-correctness monitors + race detector",
+   "Faults at every injection point (pending list, fetch, backend connect/headers/body, upload, shim endpoints; 37 kinds) are injected one after another into two agent configurations while healthy token requests run continuously; any probe that fails before/during/after a fault, any crash marker or exit of the agent, and a missing/non-502 answer for an unreachable backend are violations.",
+   "A fault may fail its own request in any way. Probe bound 20 s. force-http2 configuration not covered.",
+   "DESIGN.md §3 C07"),
+ "C08": ("E2+E1", "exploration",
+   "runtime monitoring: reference-model monitor over direct calls (integer specification of the delay range) + load-safe inequalities over fake-proxy arrival timestamps of the agent binary",
+   "ExponentialBackoffDuration(n) is sampled for n in 0..70, around 2^31/2^32/2^63, 2^64-1 and random 64-bit values against an independent integer specification; the agent binary is run against a fake proxy failing list calls by script and only inequalities that load cannot falsify decide (gap >= 0.9*base; reset shown by a short gap after 11 failures + 1 success, reported only if the long gap repeats 3 times).",
+   "Upper bounds on observed gaps never decide (load-dependent); jitter distribution is only range-checked.",
+   "DESIGN.md §3 C08"),
+ "C09": ("E1", "exploration",
+   "runtime monitoring: boundary observer of the header lines the backend / websocket handshake actually received vs the identity asserted by the fake proxy",
+   "Agent configurations over {forward-user-id, strip-credentials, shim, sessions}; clients plant forged identity fields and Authorization fields in all case variants; the raw backend records plain requests and websocket handshakes; with forwarding on the value list of X-Inverting-Proxy-User-ID must be exactly [asserted identity], with stripping on no field named Authorization may arrive.",
+   "Nothing asserted when the respective option is off.",
+   "DESIGN.md §3 C09"),
+ "C14": ("E2+E1", "exploration",
+   "runtime monitoring: differential monitor (same scripted handler served directly and through banner.Proxy; ShimBody applied to scripted readers) with an independent classification oracle, plus an end-to-end sample through the agent binary",
+   "Enumerated product of request/response dimensions with random fill; non-HTML / non-200 / non-GET / attachment responses must be byte-identical to the direct run, frame pages must embed the requested URL and carry the cache / frame headers, shim output must be prefix+one block+suffix with prefix ending at the first <head>.",
+   "Inputs whose classification the statement leaves open get only the disjunction 'identical or well-formed frame'.",
+   "DESIGN.md §3 C14"),
+ "C20": ("E1", "exploration",
+   "runtime monitoring: ordering oracles on one monotonic clock over health-reply / proxy-request / process-exit events of the real agent binary; shutdown phases held (not timed) by the harness",
+   "Health histories F^k P, P(F^(t-1)P)^m F^t for t in 1..3 and two failure kinds; shutdown scenarios signal x grace period x phase of the in-flight request x backend finishing inside/outside the period. Judged: no proxy request before the first passing reply was sent, no exit with fewer than t trailing failures, exit within 10 s of the t-th, in-flight request answered in full when the backend finishes inside the period, no list call after the announced shutdown once the held one returned, exit not before the period ended.",
+   "Progress bound T=10 s; phases before the request reached the backend are outside the statement.",
+   "DESIGN.md §3 C20"),
 }
 
 PENDING = {}
